@@ -168,7 +168,7 @@ def import_repo_guard():
         sys.exit(3)
 
 
-def drive(pid, spec, gen, execute, result, key=None, nontrivial=None):
+def drive(pid, spec, gen, execute, result, key=None, nontrivial=None, stall=None):
     """Generate and execute spec['n'] cases of one shard.
 
     gen(rnd, spec) -> JSON-able case;  execute(case, result) -> iterable of
@@ -182,7 +182,38 @@ def drive(pid, spec, gen, execute, result, key=None, nontrivial=None):
             continue
         rnd = rng(pid, spec["seed"], spec["shard"], i)
         case = gen(rnd, dict(spec, case_index=i))
-        problems = list(execute(case, result) or ())
+        if stall is None:
+            problems = list(execute(case, result) or ())
+        else:
+            # sequential code that must simply return: run the case in a thread of its own, so that a call that never
+            # returns (a lock taken twice, a wait for nobody) is a witness instead of a hung check. `stall` is a generous
+            # wall-clock watchdog (cases take milliseconds); the rest of the shard is given up after the first stall
+            import threading
+
+            box = {}
+
+            def run_case():
+                try:
+                    box["problems"] = list(execute(case, result) or ())
+                except BaseException as err:  # noqa: B036
+                    box["error"] = err
+
+            worker = threading.Thread(target=run_case, daemon=True)
+            worker.start()
+            worker.join(stall)
+            if worker.is_alive():
+                import sys
+                import traceback
+
+                frame = sys._current_frames().get(worker.ident)
+                where = "".join(traceback.format_stack(frame)[-6:]) if frame else ""
+                result.case(case, nontrivial=True, key=None if key is None else key(case))
+                clean = {k: v for k, v in spec.items() if k != "only_case"}
+                result.violation("the case did not return within %d s: a call never came back\n%s" % (stall, where), case, None, spec=clean, case_id=i)
+                break
+            if "error" in box:
+                raise box["error"]
+            problems = box["problems"]
         result.case(
             case,
             nontrivial=True if nontrivial is None else nontrivial(case),
